@@ -322,4 +322,16 @@ def exprOptRewriter (fn : Expr → Option Expr) : Node → Node
   | .expr e => match fn e with | some e' => .expr e' | none => .nil
   | n => n
 
+/-- A rewriter that breaks the contract at one kind: nodes of kind `k` are answered with a
+`*Target`, every other node with itself. -/
+def breakAt (k : Kind) : Node → Node :=
+  fun n => if n.kind = k then .target {} else n
+
+/-- A rewriter that deletes variable references by answering nil — legal for the callback of
+`RewriteExpr`, which checks for nil, but not for a `Rewriter`. -/
+def dropVarRefs : Node → Node :=
+  exprOptRewriter fun e => match e with
+    | .varRef .. => none
+    | e => some e
+
 end InfluxQL.Checked
